@@ -243,12 +243,17 @@ EDITS = ('drop_first_carrier', 'add_lower_carrier', 'resize_fixed', 'llvar_to_ll
 
 
 def apply_edit(cfg, edit):
-    """Edit a configuration dict IN PLACE the way a caller might between two calls.  Returns False if not applicable."""
-    car = ref.carriers_of(cfg)
-    kind, bit = edit
+    """
+    Edit a configuration dict IN PLACE the way a caller might between two calls.  Returns False if not applicable.
+    A third item 'replace' in the edit means: the element's entry is not modified but REPLACED by a new dict
+    (cfg['3'] = {...}) - the configuration object stays the same, the entry object does not.
+    """
+    kind, bit = edit[0], edit[1]
     c = cfg.get(str(bit))
     if c is None:
         return False
+    if len(edit) > 2 and edit[2] == 'replace':
+        c = cfg[str(bit)] = dict(c)
     if kind == 'drop_first_carrier':
         c.pop('field_processor', None)
     elif kind == 'add_lower_carrier':
@@ -305,22 +310,31 @@ def edited_config_cases(ctx, cids, encs, count):
                 msg2['DE%d' % edit[1]] = v
         c = case(cid, enc, rng.random() < 0.5, msg2, 'config_edited_in_place')
         c['first_msg'] = gen.jsonable(msg1)
-        c['edit'] = list(edit)
+        c['edit'] = list(edit) + (['replace'] if j % 2 else [])
         yield c
 
 
-def materialise_cfg(ctx, c, dumps):
+def _first_use(ctx, c, cfg, dumps, loads):
+    """The configuration object's first use: a message is encoded under it and, where a decoder is given, decoded again."""
+    first = gen.unjsonable(c['first_msg'])
+    kind, wire = ctx.call(dumps, dict(first), encoding=c['enc'], iso_config=cfg, hex_bitmap=c['hex'], budget=400000)
+    if loads is not None and kind == 'ok':
+        ctx.call(loads, wire, encoding=c['enc'], iso_config=cfg, hex_bitmap=c['hex'], budget=400000)
+        ctx.count('first uses of a configuration object that also decoded')
+
+
+def materialise_cfg(ctx, c, dumps, loads=None):
     """The configuration object a case is judged under: fresh deep copy; for edited cases, used once and edited in place."""
     import copy
     cfg = copy.deepcopy(cfg_of(c['cfg']))
     if c.get('class') == 'config_edited_in_place':
-        first = gen.unjsonable(c['first_msg'])
-        ctx.call(dumps, dict(first), encoding=c['enc'], iso_config=cfg, hex_bitmap=c['hex'], budget=400000)
+        _first_use(ctx, c, cfg, dumps, loads)
         apply_edit(cfg, tuple(c['edit']))
         ctx.count('configurations edited in place between two calls: ' + c['edit'][0])
+        if 'replace' in c['edit'][2:]:
+            ctx.count('configurations whose element entry was replaced by a new dict between two calls')
     if c.get('class') == 'same_keys_other_sizes':
-        first = gen.unjsonable(c['first_msg'])
-        ctx.call(dumps, dict(first), encoding=c['enc'], iso_config=cfg, hex_bitmap=c['hex'], budget=400000)
+        _first_use(ctx, c, cfg, dumps, loads)
         ctx.count('messages encoded right after one with the same keys and other sizes')
     return cfg
 
